@@ -474,6 +474,36 @@ def gen_valid(rng):
     return bytes(e.b), show_decoded(h, {"name": join(q["labels"]), "qtype": q["qtype"], "qclass": q["qclass"]}, rrs)
 
 
+def gen_big(rng):
+    """a long response: many records with bulky RDATA, so that compression pointers reach offsets up to 0x3FFF"""
+    names = rand_zone(rng) + rand_zone(rng)
+    an = rng.range(20, 90)
+    h = rand_header(rng, an, rcode=0)
+    e = Enc(rng, rng.choice([100, 100, 60]))
+    q = {"labels": rng.choice(names), "qtype": 255, "qclass": 1}
+    e.header(h)
+    e.name(q["labels"])
+    e.u16(q["qtype"])
+    e.u16(q["qclass"])
+    rrs = []
+    for i in range(an):
+        if rng.below(3) == 0 and len(e.b) < 0x3f00:
+            # a fresh name late in the message: later records point at it
+            names.append([rand_label(rng, 6)] + rng.choice(names)[-2:])
+        k = rng.below(4)
+        labels = rng.choice(names[-4:] if rng.below(2) else names)
+        if k == 0:
+            r = {"labels": labels, "type": T_TXT, "cls": 1, "ttl": i, "rdata": ("raw", rng.bytes(rng.range(100, 250)))}
+        elif k == 1:
+            r = {"labels": labels, "type": T_PTR, "cls": 1, "ttl": i, "rdata": ("name", rng.choice(names[-4:]))}
+        elif k == 2:
+            r = {"labels": labels, "type": T_CNAME, "cls": 1, "ttl": i, "rdata": ("name", rng.choice(names))}
+        else:
+            r = {"labels": labels, "type": T_AAAA, "cls": 1, "ttl": i, "rdata": ("raw", rng.bytes(16))}
+        rrs.append(e.rr(r))
+    return bytes(e.b), show_decoded(h, {"name": join(q["labels"]), "qtype": 255, "qclass": 1}, rrs)
+
+
 def with_expect(pkt, text):
     return "m %s %s" % (hx(pkt), text.replace(" ", "|"))
 
@@ -776,6 +806,12 @@ def cases(rng, tier):
             if r.below(4) == 0:
                 m = mutate(r, m)
             yield "m " + hx(m)
+    # --- long messages (pointer targets beyond 1 KB, up to the 14-bit limit)
+    r = rng.fork("big")
+    for i in range(150 if thorough else 12):
+        pkt, exp = gen_big(r)
+        yield with_expect(pkt, exp)
+        yield "m " + hx(mutate(r, pkt))
     # --- truncation at every offset; every value at every offset
     r = rng.fork("trunc")
     for pkt in keep[:(120 if thorough else 8)]:
@@ -898,18 +934,34 @@ def oracle_m(toks, impl):
     return None
 
 
-def oracle_n(toks, impl):
+def n_reference(toks):
+    """strict reading of an `n` line -> (labels, end, hops, rootptr, total) when the name is well-formed and fits, else None"""
     ns, off, pkt = int(toks[1]), int(toks[2]), unhx(toks[3])
-    exp = None
     try:
         labels, end, hops, rootptr = ref_name(pkt, off)
-        total = sum(len(l) + 1 for l in labels)
-        if total < ns or (total == 0 and ns >= 1):
-            exp = "ok off=%d rdl=%d out=%s" % (end, total, hx(join(labels) + b"\0"))
     except NotWF:
-        pass
-    if exp is not None and impl != exp:
-        return "well-formed name decoded differently: expected " + exp[:300]
+        return None
+    total = sum(len(l) + 1 for l in labels)
+    if not presentable(labels) or not (total < ns or (total == 0 and ns >= 1)):
+        return None
+    return labels, end, hops, rootptr, total
+
+
+def n_faithful(ref, impl):
+    """the name, as a C string, and the offsets are those encoded"""
+    labels, end, hops, rootptr, total = ref
+    if not impl.startswith("ok "):
+        return False
+    f = parse_fields(impl)
+    out = unhx(f["out"])
+    return int(f["off"]) == end and int(f["rdl"]) == total and out.split(b"\0")[0] == join(labels) and b"\0" in out
+
+
+def oracle_n(toks, impl):
+    ns, off, pkt = int(toks[1]), int(toks[2]), unhx(toks[3])
+    ref = n_reference(toks)
+    if ref is not None and not n_faithful(ref, impl):
+        return "well-formed name decoded differently: expected off=%d rdl=%d name=%s" % (ref[1], ref[4], hx(join(ref[0])))
     if impl == "err":
         return None
     if not impl.startswith("ok "):
@@ -966,7 +1018,18 @@ def compare(line, impl, model):
         return True if ibody.startswith("abort:") else ibody == mbody
     if model == "abort":
         return impl.startswith("abort:") and "anitizer" not in impl
-    return impl == model
+    if impl == model:
+        return True
+    # on the inputs where the model (= the code as it is) is proved to depart from the property, a repaired
+    # implementation may give the faithful answer instead of the model's
+    toks = line.split(" ")
+    if toks[0] == "m":
+        ref = ref_decode(unhx(toks[1]))
+        return ref is not None and known_deviation(ref) is not None and impl == ref["show"]
+    if toks[0] == "n":
+        ref = n_reference(toks)
+        return ref is not None and (ref[3] or ref[2] > MAXHOPS_IMPL) and n_faithful(ref, impl)
+    return False
 
 
 def classify(line, impl, why):
@@ -986,15 +1049,13 @@ def classify(line, impl, why):
             return dev[0]
         return None
     if toks[0] == "n" and "decoded differently" in why:
-        ns, off, pkt = int(toks[1]), int(toks[2]), unhx(toks[3])
-        try:
-            labels, end, hops, rootptr = ref_name(pkt, off)
-        except NotWF:
+        ref = n_reference(toks)
+        if ref is None:
             return None
-        total = sum(len(l) + 1 for l in labels)
+        labels, end, hops, rootptr, total = ref
         if hops > MAXHOPS_IMPL and impl == "err":
             return "C37-deep-pointer-chain-rejected"
-        if rootptr and hops <= MAXHOPS_IMPL and total + 1 <= ns and impl == "ok off=%d rdl=%d out=%s" % (end, total, hx(join(labels) + b".\0")):
+        if rootptr and hops <= MAXHOPS_IMPL and impl == "ok off=%d rdl=%d out=%s" % (end, total, hx(join(labels) + b".\0")):
             return "C37-pointer-to-root-trailing-dot"
     return None
 
